@@ -50,7 +50,16 @@ pub fn framing_oracle(msg: &[u8], case: &mut Case) -> Result<bool, Fail> {
                 Ok(p) => {
                     let o = lib("observe", || observe(&p))?;
                     let want = as_library_shows(want);
-                    if o != want {
+                    // with several OPT-typed entries the statement does not say which one is shown as the EDNS
+                    // data: any choice is accepted as long as every other entry stays where it is
+                    let twin_ok = o != want && {
+                        let n = opt_entries(msg);
+                        n >= 2 && (1..n).any(|k| decode_message_lifting(msg, k).map(|(w, _)| as_library_shows(w) == o).unwrap_or(false))
+                    };
+                    if twin_ok {
+                        case.class("several-opt-entries:another-one-shown-as-edns");
+                    }
+                    if o != want && !twin_ok {
                         let sig = if surplus { "c05:entries-differ-surplus" } else { "c05:entries-differ" };
                         return Err(Fail::new(sig, format!("parsed entries do not correspond to the framed entries: {}; message {}", diff(&want, &o), hex(&msg[..msg.len().min(200)]))));
                     }
